@@ -78,9 +78,12 @@ def main():
             def one(p):
                 c = sh(f"cd {VERIF} && VLS_REPO={REPO} ./check {p} --tier quick")
                 return p, c.returncode, [x.strip()[:160] for x in c.stdout.splitlines() if x.strip().startswith("rule ")]
-            res = [one(props[0])]
-            with ThreadPoolExecutor(max_workers=8) as ex:
-                res += list(ex.map(one, props[1:]))
+            if os.environ.get("SKIP_CHECKS"):
+                res = []        # the campaign already ran all twenty checks on this mutant
+            else:
+                res = [one(props[0])]
+                with ThreadPoolExecutor(max_workers=8) as ex:
+                    res += list(ex.map(one, props[1:]))
             det = [(p, rl[:1]) for p, rc, rl in res if rc == 1]
             tests = None
             if not det:
